@@ -40,7 +40,7 @@ class ClockAndHistory(Harness):
     what_symbolic = ("order prices in [1,1000] (hence fills, mid and market prices), activation order, the shock rate, "
                      "the distance d in [1,1e6] of every future query")
     nontrivial_event = "a fill, a cancel or an expiry changed series values during the run"
-    reach = ("nontrivial", "chunk-crossed", "fill", "cancel", "shock", "future-query-refused", "drift-changed")
+    reach = ("nontrivial", "chunk-crossed", "fill", "cancel", "shock", "future-query-refused", "drift-changed", "mid-step-read")
     bounds = {
         "quick": "session layouts [[4]], [[2],[3]], [[1],[2],[1]], [[7]] steps; 1-2 markets (+ index market); storage and "
                  "generation chunks shrunk to 3 steps (public instance attributes); a buyer and a seller quoting in steps "
@@ -132,6 +132,8 @@ class _Watch:
             g.note("nontrivial")
         if kind == "drift-changed":
             g.note("drift-changed")
+        if kind in ("consult", "hook:order-after") and self.step >= 0:
+            self.mid_step_read(sim)
         if kind == "log-direct" and isinstance(p, MarketStepBeginLog):
             m = p.market
             if m is sim.markets[0]:
@@ -149,6 +151,24 @@ class _Watch:
             self.ends[m.name, self.step] = p.session
             self.check_market(m)
 
+    def mid_step_read(self, sim):
+        """an agent or an event reads the present and the past in the middle of a step (explicit current time and
+        every earlier time): reading must not disturb anything, and the past must read as recorded."""
+        g = self.g
+        g.note("mid-step-read")
+        for m in sim.markets:
+            now = m.get_time()
+            for name in SCALARS:
+                getattr(m, name)(now)
+            old = self.snap.get(m.name)
+            if old is None:
+                continue
+            for name in SCALARS:
+                key = "vwap" if name == "get_vwap" else "get_" + name[4:] + "s"
+                for t, v in enumerate(old[key]):
+                    g.require(_eq(getattr(m, name)(t), v), "C06.history-changed",
+                              f"{m.name}.{name}({t}) read in the middle of step {now} differs from the value recorded")
+
     def check_market(self, m):
         g = self.g
         now = m.get_time()
@@ -165,6 +185,9 @@ class _Watch:
         for name in SCALARS[:-1]:
             sv = getattr(m, name)(now)
             g.require(_eq(sv, cur["get_" + name[4:] + "s"][now]), "C06.scalar!=series", name)
+            g.require(_eq(getattr(m, name)(), sv), "C06.scalar-forms-differ", f"{name}() != {name}({now}) at the end of step {now}")
+        g.require(_eq(m.get_vwap(), cur["vwap"][now]), "C06.scalar-forms-differ",
+                  f"get_vwap() != get_vwap({now}) at the end of step {now}")
         old = self.snap.get(m.name)
         if old is not None:
             for name, vals in old.items():
